@@ -8,7 +8,8 @@ open TruthModel.C20
 #print axioms indexOf?_of_get
 #print axioms gatherScriptIds_ok
 #print axioms gatherScriptIds_numbers
-#print axioms gatherScriptIds_panics_at_max
+#print axioms gatherScriptIds_max_is_error
+#print axioms gatherScriptIds_no_panic
 #print axioms groupScripts_flatten
 #print axioms compileAnm_ok
 #print axioms script_ref_is_position
@@ -24,4 +25,4 @@ open TruthModel.C20
 #print axioms msg_entry_offset
 #print axioms msg_unknown_is_error
 #print axioms std_instance_index
-#print axioms std_instance_index_wraps
+#print axioms std_too_many_is_error
